@@ -149,10 +149,15 @@ class Engine(GenericConcreteEngine[Callable[..., Any]]):
                 return tree, False, ("backtracking through binary operations is not implemented",)
             case Transfer(target=target) as transfer:
                 if target.engine == preferred:
-                    return transfer.reapply(operation.apply(target)), True, ()
+                    upstream, done, messages = operation.apply(target), True, ()
                 else:
                     upstream, done, messages = target.engine.backtrack_unary(operation, target, preferred)
-                    return (transfer.reapply(upstream), done, messages)
+                if upstream is target:
+                    # Nothing was inserted; return the very same transfer (reapply
+                    # would make a payload-less copy of a processed transfer and
+                    # make callers believe the upstream tree had changed).
+                    return transfer, done, messages
+                return transfer.reapply(upstream), done, messages
         raise NotImplementedError(f"Unsupported relation type {tree} for engine {self}.")
 
     def execute(self, relation: Relation) -> RowIterable:
